@@ -293,108 +293,133 @@ func runC02(c *Ctx, emit func(cs *progs.Case) progs.Obs) {
 		reps = 60
 	}
 	key := []byte("val")
+	probe := func(m string, p progs.Prim, s progs.Settings) {
+		mk := func(ops []progs.Op, steps []progs.Step) *progs.Case {
+			return &progs.Case{S: s, Level: 6, Ops: ops, Steps: steps}
+		}
+		type entry struct {
+			name string
+			cs   *progs.Case
+			path []string // member path to the value
+			elem int      // array element index, -1 if none
+		}
+		kop := progs.Op{K: "key", Key: key, P: &p}
+		var entries []entry
+		entries = append(entries, entry{"event", mk([]progs.Op{kop}, nil), []string{"val"}, -1})
+		entries = append(entries, entry{"dict", mk([]progs.Op{{K: "dict", Key: []byte("d"), Sub: []progs.Op{kop}}}, nil), []string{"d", "val"}, -1})
+		entries = append(entries, entry{"object", mk([]progs.Op{{K: "object", Key: []byte("o"), Sub: []progs.Op{kop}}}, nil), []string{"o", "val"}, -1})
+		if progs.ContextHas(m) {
+			entries = append(entries, entry{"context", mk(nil, []progs.Step{{Cops: []progs.Cop{{K: "op", O: &kop}}}}), []string{"val"}, -1})
+		}
+		if progs.ArrayMethods[m] {
+			entries = append(entries, entry{"array", mk([]progs.Op{{K: "array", Key: []byte("a"), Sub: []progs.Op{{K: "aelem", P: &p}}}}, nil), []string{"a"}, 0})
+		}
+		switch m {
+		case "Hex", "RawCBOR", "Type", "Stringer", "Stringers", "Any", "Uints8", "Interface":
+		default:
+			fp := p
+			if m == "RawJSON" {
+				fp.V = json.RawMessage(p.V.([]byte))
+			}
+			for _, asMap := range []bool{false, true} {
+				name := "fields-slice"
+				if asMap {
+					name = "fields-map"
+				}
+				entries = append(entries, entry{name, mk([]progs.Op{{K: "fields", Via: asMap, KVs: []progs.FieldKV{{Key: key, K: "prim", P: &fp}}}}, nil), []string{"val"}, -1})
+			}
+		}
+		var first []byte
+		var firstName string
+		for _, en := range entries {
+			o := emit(en.cs)
+			if !o.Written {
+				continue
+			}
+			v, err := oracle.CheckEventLine(o.Line)
+			if err != nil {
+				continue // reported by the C01 monitor
+			}
+			// walk the path
+			cur := v
+			ok := true
+			for _, k := range en.path {
+				found := false
+				for _, mem := range cur.Members {
+					if mem.Key == k {
+						cur = mem.Val
+						found = true
+						break
+					}
+				}
+				if !found {
+					ok = false
+					break
+				}
+			}
+			if ok && en.elem >= 0 {
+				if cur.Kind == 'a' && len(cur.Arr) > en.elem {
+					cur = cur.Arr[en.elem]
+				} else {
+					ok = false
+				}
+			}
+			desc := map[string]interface{}{"method": m, "entry": en.name, "value": p.Describe(), "settings": fmt.Sprintf("%+v", s), "line": fmt.Sprintf("%q", o.Line)}
+			if !ok {
+				c.Violate(Violation{Key: "field-missing", Monitor: "decode-back", Desc: fmt.Sprintf("%s through %s: the field is not in the decoded event", m, en.name), Case: desc})
+				continue
+			}
+			if err := checkValue(cur, p, s); err != nil {
+				c.Violate(Violation{Key: "value-not-roundtrip", Monitor: "decode-back", Desc: fmt.Sprintf("%s through %s: %v", m, en.name, err), Case: desc})
+			}
+			// identical bytes across entry points
+			prefix := `"val":`
+			if en.elem >= 0 {
+				prefix = `"a":[`
+			}
+			raw, found := memberRaw(o.Line, prefix)
+			if found {
+				if first == nil {
+					first, firstName = raw, en.name
+				} else if !bytes.Equal(first, raw) {
+					c.Violate(Violation{Key: "entry-points-differ", Monitor: "entry-points-agree", Desc: fmt.Sprintf("%s: %s encodes %q but %s encodes %q", m, firstName, first, en.name, raw), Case: desc})
+				}
+			}
+			c.Hist("c02_entry", en.name)
+		}
+		c.Hist("c02_method", m)
+	}
 	for rep := 0; rep < reps; rep++ {
 		for _, m := range progs.EventMethods {
 			r := c.R.Fork()
 			g := &progs.Gen{R: r}
 			s := g.GenSettings()
 			s.LevelName = ""
-			p := progs.GenPrim(r, m)
-			mk := func(ops []progs.Op, steps []progs.Step) *progs.Case {
-				return &progs.Case{S: s, Level: 6, Ops: ops, Steps: steps}
+			probe(m, progs.GenPrim(r, m), s)
+		}
+	}
+	// directed: instants on both sides of the epoch with sub-unit fractions, under every integer time format,
+	// scalar and slice; durations around zero under every unit
+	instants := []time.Time{time.Unix(0, 0), time.Unix(-1, 999500000), time.Unix(-1, 500), time.Unix(0, -1), time.Unix(0, -999999), time.Unix(-1500, 123456789),
+		time.Unix(0, 1), time.Unix(0, 999999), time.Unix(1, 500000), time.Unix(1700000000, 999999999), time.Unix(-2000000000, 1)}
+	for _, tf := range []string{zerolog.TimeFormatUnix, zerolog.TimeFormatUnixMs, zerolog.TimeFormatUnixMicro, zerolog.TimeFormatUnixNano, time.RFC3339Nano} {
+		for _, t := range instants {
+			s := progs.DefaultSettings()
+			s.LevelName = ""
+			s.TimeFormat = tf
+			probe("Time", progs.Prim{M: "Time", V: t.UTC()}, s)
+			probe("Times", progs.Prim{M: "Times", V: []time.Time{t.UTC(), t.Add(time.Nanosecond).UTC()}}, s)
+		}
+	}
+	for _, unit := range []time.Duration{time.Nanosecond, time.Microsecond, time.Millisecond, time.Second, 7} {
+		for _, useInt := range []bool{false, true} {
+			for _, d := range []time.Duration{0, 1, -1, 999, -999, 1500 * time.Microsecond, -1500 * time.Microsecond, time.Duration(math.MaxInt64), time.Duration(math.MinInt64)} {
+				s := progs.DefaultSettings()
+				s.LevelName = ""
+				s.DurUnit, s.DurInt = unit, useInt
+				probe("Dur", progs.Prim{M: "Dur", V: d}, s)
+				probe("Durs", progs.Prim{M: "Durs", V: []time.Duration{d, -d}}, s)
 			}
-			type entry struct {
-				name string
-				cs   *progs.Case
-				path []string // member path to the value
-				elem int      // array element index, -1 if none
-			}
-			kop := progs.Op{K: "key", Key: key, P: &p}
-			var entries []entry
-			entries = append(entries, entry{"event", mk([]progs.Op{kop}, nil), []string{"val"}, -1})
-			entries = append(entries, entry{"dict", mk([]progs.Op{{K: "dict", Key: []byte("d"), Sub: []progs.Op{kop}}}, nil), []string{"d", "val"}, -1})
-			entries = append(entries, entry{"object", mk([]progs.Op{{K: "object", Key: []byte("o"), Sub: []progs.Op{kop}}}, nil), []string{"o", "val"}, -1})
-			if progs.ContextHas(m) {
-				entries = append(entries, entry{"context", mk(nil, []progs.Step{{Cops: []progs.Cop{{K: "op", O: &kop}}}}), []string{"val"}, -1})
-			}
-			if progs.ArrayMethods[m] {
-				entries = append(entries, entry{"array", mk([]progs.Op{{K: "array", Key: []byte("a"), Sub: []progs.Op{{K: "aelem", P: &p}}}}, nil), []string{"a"}, 0})
-			}
-			switch m {
-			case "Hex", "RawCBOR", "Type", "Stringer", "Stringers", "Any", "Uints8", "Interface":
-			default:
-				fp := p
-				if m == "RawJSON" {
-					fp.V = json.RawMessage(p.V.([]byte))
-				}
-				for _, asMap := range []bool{false, true} {
-					name := "fields-slice"
-					if asMap {
-						name = "fields-map"
-					}
-					entries = append(entries, entry{name, mk([]progs.Op{{K: "fields", Via: asMap, KVs: []progs.FieldKV{{Key: key, K: "prim", P: &fp}}}}, nil), []string{"val"}, -1})
-				}
-			}
-			var first []byte
-			var firstName string
-			for _, en := range entries {
-				o := emit(en.cs)
-				if !o.Written {
-					continue
-				}
-				v, err := oracle.CheckEventLine(o.Line)
-				if err != nil {
-					continue // reported by the C01 monitor
-				}
-				// walk the path
-				cur := v
-				ok := true
-				for _, k := range en.path {
-					found := false
-					for _, mem := range cur.Members {
-						if mem.Key == k {
-							cur = mem.Val
-							found = true
-							break
-						}
-					}
-					if !found {
-						ok = false
-						break
-					}
-				}
-				if ok && en.elem >= 0 {
-					if cur.Kind == 'a' && len(cur.Arr) > en.elem {
-						cur = cur.Arr[en.elem]
-					} else {
-						ok = false
-					}
-				}
-				desc := map[string]interface{}{"method": m, "entry": en.name, "value": p.Describe(), "settings": fmt.Sprintf("%+v", s), "line": fmt.Sprintf("%q", o.Line)}
-				if !ok {
-					c.Violate(Violation{Key: "field-missing", Monitor: "decode-back", Desc: fmt.Sprintf("%s through %s: the field is not in the decoded event", m, en.name), Case: desc})
-					continue
-				}
-				if err := checkValue(cur, p, s); err != nil {
-					c.Violate(Violation{Key: "value-not-roundtrip", Monitor: "decode-back", Desc: fmt.Sprintf("%s through %s: %v", m, en.name, err), Case: desc})
-				}
-				// identical bytes across entry points
-				prefix := `"val":`
-				if en.elem >= 0 {
-					prefix = `"a":[`
-				}
-				raw, found := memberRaw(o.Line, prefix)
-				if found {
-					if first == nil {
-						first, firstName = raw, en.name
-					} else if !bytes.Equal(first, raw) {
-						c.Violate(Violation{Key: "entry-points-differ", Monitor: "entry-points-agree", Desc: fmt.Sprintf("%s: %s encodes %q but %s encodes %q", m, firstName, first, en.name, raw), Case: desc})
-					}
-				}
-				c.Hist("c02_entry", en.name)
-			}
-			// slice variant: element i encodes like the scalar
-			c.Hist("c02_method", m)
 		}
 	}
 	_ = zerolog.Disabled
